@@ -663,3 +663,7 @@ func (w *world) withinOracle(t *wTask, lo uint64) string {
 	}
 	return fmt.Sprintf("w-within %d %d %d %s", lo, top, t.stop, listTok(rows, ","))
 }
+
+func jrpcFor(node *simnode.Node) shovel.Source {
+	return jrpc2.New(node.URL() + "/nocache").WithMaxReads(0).WithPollDuration(time.Hour)
+}
